@@ -215,6 +215,9 @@ class C03(ConnProp):
                 if 'RUST-PANIC' in ln:
                     bad = 'a panic was caught: ' + ln[:200]
                     break
+                if ln.startswith('hang ') or ' HANG ' in ln:
+                    bad = 'the call did not return: ' + ln[:200]
+                    break
                 if ' CALLS=' in ln:
                     bad = 'more than one write per try_write: ' + ln[:200]
                     break
